@@ -280,6 +280,20 @@ impl Lab {
         Ok(Lab { server, events: mio::Events::with_capacity(1024), addr, pk, srv, socks, sentinel: client_socket(), queue, cfg, sentinel_ctr: 0, born: Instant::now(), patience: Duration::from_secs(5), force_sentinel: None })
     }
 
+    /// append client sockets bound to the given source ports (skipping ports that cannot be bound); returns how many
+    pub fn add_port_socks(&mut self, ports: &[u16]) -> usize {
+        let mut n = 0;
+        for p in ports {
+            if let Ok(s) = UdpSocket::bind(("127.0.0.1", *p)) {
+                s.set_nonblocking(true).unwrap();
+                set_rcvbuf(s.as_raw_fd(), 8 << 20);
+                self.socks.push(s);
+                n += 1;
+            }
+        }
+        n
+    }
+
     pub fn ensure_socks(&mut self, n: usize) {
         while self.socks.len() < n {
             self.socks.push(if self.cfg.ipv6 { client_socket6() } else { client_socket() });
